@@ -428,162 +428,240 @@ func c15Classify(sch *vh.C15Schema, strict bool, p *ast.Policy, whole ast.IsNode
 			}
 		}
 	}
-	// (5) permissive LUB of two record types silently drops an attribute whose types disagree => `has` typed False
-	if !strict {
-		hit := false
+	// (5)-(8): the validator types a test False (and skips what the test guards) although the test is true at run time.
+	// The two REPAIRED classes (6), (7) are reported only with positive evidence: the validator demonstrably types THAT
+	// node False in live code of the policy (c15FoldedFalse) — a policy that merely contains the shape next to the shape
+	// of an open finding is not evidence that the repaired defect is back.  The two OPEN classes (5), (8) are tried with
+	// the same evidence first (before the repaired ones) and, as before, by the shape alone at the very end.
+	walk := func(f func(ast.IsNode)) {
 		for _, cd := range p.Conditions {
-			c15Walk(cd.Body, func(n ast.IsNode) {
-				h, ok := n.(ast.NodeTypeHas)
-				if !ok {
-					return
-				}
-				vs := c15Variants(h.Arg)
-				if len(vs) < 2 {
-					return
-				}
-				kinds := map[string]bool{}
-				for _, a := range vs {
-					if v, k := c15Eval(a, env); k == "" {
-						if rec, ok := v.(types.Record); ok {
-							if x, ok := rec.Get(h.Value); ok {
-								kinds[c15ValueKind(x)] = true
-							}
-						}
-					}
-				}
-				if len(kinds) >= 2 {
-					hit = true
-				}
-			})
+			c15Walk(cd.Body, f)
 		}
-		if hit {
+	}
+	folded := c15FoldedFalse(sch, strict, p, env)
+	for _, n := range folded {
+		if !strict && c15LubHas(n, env) {
+			c15Via["evidence:permissive-record-lub-drops-attr"]++
 			return "permissive-record-lub-drops-attr"
 		}
-	}
-	// (6) permissive: `hasTag` on an entity LUB of which only SOME elements declare tags is typed False
-	if !strict && sch != nil && sch.RS != nil {
-		hit := false
-		for _, cd := range p.Conditions {
-			c15Walk(cd.Body, func(n ast.IsNode) {
-				h, ok := n.(ast.NodeTypeHasTag)
-				if !ok {
-					return
-				}
-				vs := c15Variants(h.Left)
-				if len(vs) < 2 {
-					return
-				}
-				with, without := false, false
-				for _, a := range vs {
-					if v, k := c15Eval(a, env); k == "" {
-						if uid, ok := v.(types.EntityUID); ok {
-							if e, ok := sch.RS.Entities[uid.Type]; ok && e.Tags != nil {
-								with = true
-							} else {
-								without = true
-							}
-						}
-					}
-				}
-				if with && without {
-					hit = true
-				}
-			})
-		}
-		if hit {
-			return "hastag-lub-mixed-tags"
-		}
-	}
-	// (7) `in` whose left operand is an action entity but not syntactically `action` / an action literal, and whose right
-	// operand holds an action of ANOTHER action entity type the left one is a member of: the ENTITY-type hierarchy
-	// (where action types have no parents) folds the test to False
-	{
-		hit := false
-		isAct := func(t types.EntityType) bool { return t == "Action" || strings.HasSuffix(string(t), "::Action") }
-		for _, cd := range p.Conditions {
-			c15Walk(cd.Body, func(n ast.IsNode) {
-				in, ok := n.(ast.NodeTypeIn)
-				if !ok {
-					return
-				}
-				if v, ok := in.Left.(ast.NodeTypeVariable); ok && v.Name == "action" {
-					return
-				}
-				if _, ok := in.Left.(ast.NodeValue); ok {
-					return
-				}
-				lv, lk := c15Eval(in.Left, env)
-				rv, rk := c15Eval(in.Right, env)
-				res, k := c15Eval(in, env)
-				luid, ok := lv.(types.EntityUID)
-				if lk != "" || rk != "" || k != "" || !ok || !isAct(luid.Type) || res != types.Value(types.True) {
-					return
-				}
-				var targets []types.EntityUID
-				switch r := rv.(type) {
-				case types.EntityUID:
-					targets = append(targets, r)
-				case types.Set:
-					for e := range r.All() {
-						if u, ok := e.(types.EntityUID); ok {
-							targets = append(targets, u)
-						}
-					}
-				}
-				same := false
-				other := false
-				for _, t := range targets {
-					if t.Type == luid.Type {
-						same = true
-					} else if isAct(t.Type) {
-						other = true
-					}
-				}
-				if other && !same {
-					hit = true
-				}
-			})
-		}
-		if hit {
-			return "in-action-type-cross-namespace"
-		}
-	}
-	// (8) `in` whose left operand is a NON-action entity that is a member of an action entity (possible only when the
-	// schema declares an entity type NAMED `Action` and lists it under memberOf) and whose right operand holds an action
-	// of another action entity type: the entity-type hierarchy (the declared `Action` type has no parents) folds it to False
-	{
-		hit := false
-		isAct := func(t types.EntityType) bool { return t == "Action" || strings.HasSuffix(string(t), "::Action") }
-		for _, cd := range p.Conditions {
-			c15Walk(cd.Body, func(n ast.IsNode) {
-				in, ok := n.(ast.NodeTypeIn)
-				if !ok {
-					return
-				}
-				lv, lk := c15Eval(in.Left, env)
-				rv, rk := c15Eval(in.Right, env)
-				res, k := c15Eval(in, env)
-				luid, ok := lv.(types.EntityUID)
-				if lk != "" || rk != "" || k != "" || !ok || isAct(luid.Type) || res != types.Value(types.True) {
-					return
-				}
-				switch r := rv.(type) {
-				case types.EntityUID:
-					hit = hit || isAct(r.Type)
-				case types.Set:
-					for e := range r.All() {
-						if u, ok := e.(types.EntityUID); ok && isAct(u.Type) {
-							hit = true
-						}
-					}
-				}
-			})
-		}
-		if hit {
+		if c15InBelowDeclaredAction(n, env) {
+			c15Via["evidence:in-entity-below-declared-action-type"]++
 			return "in-entity-below-declared-action-type"
 		}
 	}
+	for _, n := range folded {
+		if !strict && c15MixedTagHasTag(n, sch, env) {
+			c15Via["evidence:hastag-lub-mixed-tags"]++
+			return "hastag-lub-mixed-tags"
+		}
+		if c15InCrossActionType(n, env) {
+			c15Via["evidence:in-action-type-cross-namespace"]++
+			return "in-action-type-cross-namespace"
+		}
+	}
+	hit := ""
+	walk(func(n ast.IsNode) {
+		if hit == "" && !strict && c15LubHas(n, env) {
+			hit = "permissive-record-lub-drops-attr"
+		}
+	})
+	walk(func(n ast.IsNode) {
+		if hit == "" && c15InBelowDeclaredAction(n, env) {
+			hit = "in-entity-below-declared-action-type"
+		}
+	})
+	if hit != "" {
+		c15Via["shape-only:"+hit]++
+		return hit
+	}
 	return "accepted-policy-fails-" + kind
+}
+
+// c15Via counts how the "test typed False" classes were attributed (evidence from the validator / shape alone); reported in the notes.
+var c15Via = map[string]int{}
+
+// ---- shapes of the four "test typed False" classes, one node at a time ----
+
+// (5) permissive LUB of two record types silently drops an attribute whose types disagree => `has` typed False
+func c15LubHas(n ast.IsNode, env eval.Env) bool {
+	h, ok := n.(ast.NodeTypeHas)
+	if !ok {
+		return false
+	}
+	vs := c15Variants(h.Arg)
+	if len(vs) < 2 {
+		return false
+	}
+	kinds := map[string]bool{}
+	for _, a := range vs {
+		if v, k := c15Eval(a, env); k == "" {
+			if rec, ok := v.(types.Record); ok {
+				if x, ok := rec.Get(h.Value); ok {
+					kinds[c15ValueKind(x)] = true
+				}
+			}
+		}
+	}
+	return len(kinds) >= 2
+}
+
+// (6) permissive: `hasTag` on an entity LUB of which only SOME elements declare tags is typed False
+func c15MixedTagHasTag(n ast.IsNode, sch *vh.C15Schema, env eval.Env) bool {
+	h, ok := n.(ast.NodeTypeHasTag)
+	if !ok || sch == nil || sch.RS == nil {
+		return false
+	}
+	vs := c15Variants(h.Left)
+	if len(vs) < 2 {
+		return false
+	}
+	with, without := false, false
+	for _, a := range vs {
+		if v, k := c15Eval(a, env); k == "" {
+			if uid, ok := v.(types.EntityUID); ok {
+				if e, ok := sch.RS.Entities[uid.Type]; ok && e.Tags != nil {
+					with = true
+				} else {
+					without = true
+				}
+			}
+		}
+	}
+	return with && without
+}
+
+func c15IsActionType(t types.EntityType) bool {
+	return t == "Action" || strings.HasSuffix(string(t), "::Action")
+}
+
+// c15InOperands: `l in r` that evaluates to true in env, with the entity on the left and the entities on the right
+func c15InOperands(n ast.IsNode, env eval.Env) (in ast.NodeTypeIn, luid types.EntityUID, targets []types.EntityUID, ok bool) {
+	in, isIn := n.(ast.NodeTypeIn)
+	if !isIn {
+		return in, luid, nil, false
+	}
+	lv, lk := c15Eval(in.Left, env)
+	rv, rk := c15Eval(in.Right, env)
+	res, k := c15Eval(in, env)
+	luid, isUID := lv.(types.EntityUID)
+	if lk != "" || rk != "" || k != "" || !isUID || res != types.Value(types.True) {
+		return in, luid, nil, false
+	}
+	switch r := rv.(type) {
+	case types.EntityUID:
+		targets = append(targets, r)
+	case types.Set:
+		for e := range r.All() {
+			if u, ok := e.(types.EntityUID); ok {
+				targets = append(targets, u)
+			}
+		}
+	}
+	return in, luid, targets, true
+}
+
+// (7) `in` whose left operand is an action entity but not syntactically `action` / an action literal, and whose right
+// operand holds an action of ANOTHER action entity type the left one is a member of: the ENTITY-type hierarchy
+// (where action types have no parents) folds the test to False
+func c15InCrossActionType(n ast.IsNode, env eval.Env) bool {
+	in, luid, targets, ok := c15InOperands(n, env)
+	if !ok || !c15IsActionType(luid.Type) {
+		return false
+	}
+	if v, ok := in.Left.(ast.NodeTypeVariable); ok && v.Name == "action" {
+		return false
+	}
+	if _, ok := in.Left.(ast.NodeValue); ok {
+		return false
+	}
+	same, other := false, false
+	for _, t := range targets {
+		if t.Type == luid.Type {
+			same = true
+		} else if c15IsActionType(t.Type) {
+			other = true
+		}
+	}
+	return other && !same
+}
+
+// (8) `in` whose left operand is a NON-action entity that is a member of an action entity (possible only when the
+// schema declares an entity type NAMED `Action` and lists it under memberOf) and whose right operand holds an action
+// of another action entity type: the entity-type hierarchy (the declared `Action` type has no parents) folds it to False
+func c15InBelowDeclaredAction(n ast.IsNode, env eval.Env) bool {
+	_, luid, targets, ok := c15InOperands(n, env)
+	if !ok || c15IsActionType(luid.Type) {
+		return false
+	}
+	for _, t := range targets {
+		if c15IsActionType(t.Type) {
+			return true
+		}
+	}
+	return false
+}
+
+// c15FoldedFalse: the nodes of the policy's conditions for which there is positive evidence that the validator types
+// them False in live code although they evaluate to true in env.  The policy is narrowed to the one request environment
+// of env (`principal is P, action == A, resource is R`: the scope was satisfied, the error came from a condition); for
+// a node n of the narrowed policy q
+//   - q[n := (n && 1)] is accepted: `&&` skips its right operand only behind a left operand typed False (a Bool-typed n
+//     makes `n && 1` a type error; the capabilities n grants are kept), and
+//   - q[n := 1] is rejected: n stands in checked code (a node inside a skipped branch passes the first test vacuously).
+func c15FoldedFalse(sch *vh.C15Schema, strict bool, p *ast.Policy, env eval.Env) (out []ast.IsNode) {
+	if sch == nil || sch.RS == nil {
+		return nil
+	}
+	vs, vp := c15Validators(sch)
+	v := vp
+	if strict {
+		v = vs
+	}
+	pu, ok1 := env.Principal.(types.EntityUID)
+	au, ok2 := env.Action.(types.EntityUID)
+	ru, ok3 := env.Resource.(types.EntityUID)
+	if !ok1 || !ok2 || !ok3 {
+		return nil
+	}
+	q := *p
+	q.Principal = ast.ScopeTypeIs{Type: pu.Type}
+	q.Action = ast.ScopeTypeEq{Entity: au}
+	q.Resource = ast.ScopeTypeIs{Type: ru.Type}
+	if ok, pn := c15Accepts(v, &q); !ok || pn != nil {
+		return nil
+	}
+	var nodes []ast.IsNode
+	vh.MapPolicy(&q, func(n ast.IsNode) ast.IsNode { nodes = append(nodes, n); return n })
+	one := ast.NodeValue{Value: types.Long(1)}
+	subst := func(idx int, repl func(ast.IsNode) ast.IsNode) *ast.Policy {
+		i := -1
+		return vh.MapPolicy(&q, func(n ast.IsNode) ast.IsNode {
+			i++
+			if i == idx {
+				return repl(n)
+			}
+			return n
+		})
+	}
+	for idx, n := range nodes {
+		switch n.(type) {
+		case ast.NodeValue, ast.NodeTypeVariable:
+			continue
+		}
+		if val, k := c15Eval(n, env); k != "" || val != types.Value(types.True) {
+			continue
+		}
+		okAnd, pn1 := c15Accepts(v, subst(idx, func(n ast.IsNode) ast.IsNode { return ast.NodeTypeAnd{BinaryNode: ast.BinaryNode{Left: n, Right: one}} }))
+		if !okAnd || pn1 != nil {
+			continue
+		}
+		okOne, pn2 := c15Accepts(v, subst(idx, func(ast.IsNode) ast.IsNode { return one }))
+		if okOne || pn2 != nil {
+			continue
+		}
+		out = append(out, n)
+	}
+	return out
 }
 
 // ---- rendering for reports ---------------------------------------------------------------------
@@ -1267,10 +1345,19 @@ func runC15(c *vh.Ctx) {
 		shares = append(shares, fmt.Sprintf("%s %d/%d", o, st.reach[o], st.acc[o]))
 	}
 	c.Res.Notes = append(c.Res.Notes, "accepted policies reaching each operator at run time / accepted policies containing it: "+strings.Join(shares, ", "))
+	{
+		var via []string
+		for k, v := range c15Via {
+			via = append(via, fmt.Sprintf("%s=%d", k, v))
+		}
+		sort.Strings(via)
+		c.Res.Notes = append(c.Res.Notes, "attribution of the `test typed False` classes (evidence = the validator demonstrably types the node False in live code; shape-only = open classes only): "+strings.Join(via, " "))
+	}
 	// ---- self-tests: a collapsed generator must not pass silently ----
 	if st.accepted < targetAccepted {
 		c.Report(vh.Finding{Class: "generator-collapse", What: fmt.Sprintf("only %d accepted policies (target %d)", st.accepted, targetAccepted), Check: "self-test", NoInput: true})
 	}
+	c.Res.Notes = append(c.Res.Notes, fmt.Sprintf("self-test margins: accepted %d/%d; dominant error kind %d of %d evaluations (limit 60%%); scopes satisfied %d of %d evaluations (at least 10%%)", st.accepted, targetAccepted, top, st.evals, st.scopeSat, st.evals))
 	var thin []string
 	for _, o := range c15RequiredOps {
 		if st.acc[o] < 5 || st.reach[o] < 2 {
